@@ -331,6 +331,8 @@ REAL_PROGRAM: dict[str, Any] = {
             "steps": [{"logs": [("INFO", "x", {})], "act": "emit"}],
         },
         {"name": "boom", "kind": "unary", "params": [], "ret": ("str",), "u": {"logs": [("INFO", "pre", {})], "act": ("raise", "ValueError", "boom")}},
+        # the worker answers with an enum member; a client built against another version of the enum cannot convert it
+        {"name": "tint", "kind": "unary", "params": [], "ret": ("enum", "Color"), "u": {"logs": [("INFO", "tint-log", {})], "act": ("return", __import__("lib.tygen", fromlist=["Color"]).Color.RED)}},
     ],
     "calls": [],
 }
@@ -350,6 +352,8 @@ def real_scenarios() -> list[dict[str, Any]]:
     sc.append({"kind": "exchange_abandon", "after": 1})
     sc.append({"kind": "stream_cancel", "after": 1})
     sc.append({"kind": "stream_close_early", "after": 1})
+    # an intact reply the client cannot turn into its own types: the exception is raised on the client after the reply arrived
+    sc.append({"kind": "unary_result_conversion_raises"})
     return sc
 
 
@@ -373,6 +377,13 @@ def run_real_shard(job: dict[str, Any]) -> dict[str, Any]:
     chk = Check(PID, job["tier"], job["seed"])
     root = os.path.dirname(os.path.dirname(os.path.abspath(__file__)))
     proto, _impl = svcgen.build(REAL_PROGRAM)
+    import copy
+
+    odd_program = copy.deepcopy(REAL_PROGRAM)
+    for m_ in odd_program["methods"]:
+        if m_["name"] == "tint":
+            m_["ret"] = ("enum", "Odd")  # members A, B, SPACE: no RED
+    proto_odd, _ = svcgen.build(odd_program)
     with tempfile.TemporaryDirectory(prefix="verif-c32-") as td:
         pf = os.path.join(td, "program.pkl")
         with open(pf, "wb") as fh:
@@ -395,7 +406,7 @@ def run_real_shard(job: dict[str, Any]) -> dict[str, Any]:
 
                     first_exc: str | None = None
                     try:
-                        with pool.connect(proto, cmd, on_log=on_log_raise) as p1:
+                        with pool.connect(proto_odd if sc["kind"] == "unary_result_conversion_raises" else proto, cmd, on_log=on_log_raise) as p1:
                             k = sc["kind"]
                             if k == "clean_unary":
                                 p1.echo(nonce="first")
@@ -409,6 +420,9 @@ def run_real_shard(job: dict[str, Any]) -> dict[str, Any]:
                                     ab.release()
                             elif k == "unary_onlog_raise":
                                 p1.chatty(nonce="first")
+                            elif k == "unary_result_conversion_raises":
+                                chk.hit("result_conversion_case_run")
+                                p1.tint()  # p1 speaks the other enum version (see connect below)
                             elif k == "stream_abandon":
                                 sess = getattr(p1, sc["method"])()
                                 it = iter(sess)
@@ -438,6 +452,14 @@ def run_real_shard(job: dict[str, Any]) -> dict[str, Any]:
                         chk.hit("onlog_raise_injected")
                     except RpcError as e:
                         first_exc = f"RpcError:{e.error_type}"
+                    except (KeyError, ValueError, TypeError) as e:
+                        if sc["kind"] != "unary_result_conversion_raises":
+                            raise
+                        first_exc = type(e).__name__
+                        chk.hit("result_conversion_raised")
+                    if sc["kind"] == "unary_result_conversion_raises" and first_exc is None:
+                        chk.skip("result_conversion_did_not_raise")
+                        continue
                     if sc["kind"].endswith("onlog_raise") and first_exc != "_Boom":
                         chk.skip(f"injection_point_not_reached:{label}")
                         continue
@@ -485,7 +507,7 @@ def run_real_shard(job: dict[str, Any]) -> dict[str, Any]:
 
 def main(tier: str, seed: int) -> int:
     chk = Check(PID, tier, seed, rule=RULE)
-    chk.require("sched_events", "idle_checked", "preempted_schedules", "probe_completed", "worker_reused", "onlog_raise_injected")
+    chk.require("sched_events", "idle_checked", "preempted_schedules", "probe_completed", "worker_reused", "onlog_raise_injected", "result_conversion_raised")
     quick = tier == "quick"
     n = shard.ncpu()
     cases = [(a, mi) for a in SCHED_SETS for mi in (0, 1, 2)]
